@@ -4,6 +4,8 @@ pub mod c04;
 pub mod c05;
 pub mod c06;
 pub mod c07;
+pub mod c09;
+pub mod c10;
 pub mod c12;
 pub mod c15;
 pub mod c16;
@@ -27,5 +29,9 @@ pub fn all() -> Vec<Entry> {
         Entry { scn: &c12::C12Recency, quick_runs: 60_000, thorough_runs: 3_000_000 },
         Entry { scn: &c12::C12PromIdle, quick_runs: 30_000, thorough_runs: 2_000_000 },
         Entry { scn: &c15::C15Windows, quick_runs: 40_000, thorough_runs: 3_000_000 },
+        Entry { scn: &c09::C09Writer, quick_runs: 60_000, thorough_runs: 3_000_000 },
+        Entry { scn: &c10::C10Flush, quick_runs: 30_000, thorough_runs: 2_000_000 },
+        Entry { scn: &c10::C10Agent, quick_runs: 20_000, thorough_runs: 1_000_000 },
+        Entry { scn: &c10::C09Agent, quick_runs: 20_000, thorough_runs: 1_000_000 },
     ]
 }
